@@ -55,14 +55,15 @@ func (s *c28Sender) SendToPeer(p identity.AgentID, f *protocol.Frame) error {
 func (s *c28Sender) GetPeerIDs() []identity.AgentID { return s.peers }
 
 type c28World struct {
-	a      *agent.Agent
-	sender *c28Sender
-	dir    string
-	sl, wk int
-	keys   [2]*crypto.SigningKeypair
-	now    int64             // wall-clock second fixed at reset: relative timestamps of the whole case count from it
-	skip   bool              // the case has drifted too far from `now`: the remaining ops are not run (see c28Drifted)
-	labels map[string]string // command content (origin,id,ts,signature) -> "<ts token>:<sig token>"
+	a       *agent.Agent
+	sender  *c28Sender
+	dir     string
+	sl, wk  int
+	keys    [2]*crypto.SigningKeypair
+	now     int64             // wall-clock second fixed at reset: relative timestamps of the whole case count from it
+	skip    bool              // the case has drifted too far from `now`: the remaining ops are not run (see c28Drifted)
+	canSign bool              // reset mode 2: holds the private key, short poll interval (TriggerWake allowed)
+	labels  map[string]string // command content (origin,id,ts,signature) -> "<ts token>:<sig token>"
 }
 
 func c28Content(o identity.AgentID, id, ts uint64, sig [64]byte) string {
